@@ -32,6 +32,9 @@ type Case struct {
 	K      int    `json:"k"`
 	LenB   int    `json:"len_b"`
 	SpareB int    `json:"spare_b"`
+	// Nil: wherever a slice of length 0 and capacity 0 is handed to the helper (the destination, the inserted
+	// values, a Concat operand), it is a nil slice instead of an empty non-nil one.
+	Nil bool `json:"nil,omitempty"`
 }
 
 type myInts []int
@@ -44,7 +47,8 @@ const rule = "one helper call per case on a named []int type; elements are disti
 	"element of the result (up to its capacity) changes nothing reachable from the inputs and vice versa; Grow: prefix intact " +
 	"and exactly n zeros appended. non-trivial = (Insert/InsertSlice/Remove/RemoveSlice) spare > 0 and the affected " +
 	"range strictly inside; (Fill/Repeat/Reverse) length >= 3; (Concat) both non-empty and a's spare capacity >= len(b); " +
-	"(Clone) non-empty with spare capacity; (Grow) n >= 1 with spare capacity >= 1"
+	"(Clone) non-empty with spare capacity; (Grow) n >= 1 with spare capacity >= 1; nil=true: every zero-length zero-capacity " +
+	"argument is a nil slice"
 
 func poison(i int) int { return -1000 - i }
 
@@ -72,6 +76,30 @@ func eq(a, b []int) bool {
 		}
 	}
 	return true
+}
+
+// show prints a slice in full when it is short and abbreviated otherwise.
+func show(a []int) string {
+	if len(a) <= 48 {
+		return fmt.Sprint(a)
+	}
+	return fmt.Sprintf("[len %d: %v ... %v]", len(a), a[:8], a[len(a)-8:])
+}
+
+// where describes the first difference between got and want ("" when they are short enough to be printed in full).
+func where(got, want []int) string {
+	if len(got) <= 48 && len(want) <= 48 {
+		return ""
+	}
+	m := fmt.Sprintf(" (got length %d, want length %d", len(got), len(want))
+	for i := 0; i < len(got) && i < len(want); i++ {
+		if got[i] != want[i] {
+			lo, hi := max(i-3, 0), i+4
+			return m + fmt.Sprintf("; first difference at index %d: got[%d:%d]=%v want[%d:%d]=%v)", i,
+				lo, min(hi, len(got)), got[lo:min(hi, len(got))], lo, min(hi, len(want)), want[lo:min(hi, len(want))])
+		}
+	}
+	return m + "; common prefix equal)"
 }
 
 func mod(a, m int) int {
@@ -151,8 +179,8 @@ func checkDisjoint(name string, r myInts, backs ...myInts) string {
 	return ""
 }
 
-func Run(c Case) pbt.Outcome {
-	out := pbt.Outcome{Evals: 1}
+func Run(c Case) (out pbt.Outcome) {
+	out = pbt.Outcome{Evals: 1}
 	lab := func(l ...string) {
 		for _, x := range l {
 			out.Labels = append(out.Labels, c.Op+":"+x)
@@ -162,6 +190,15 @@ func Run(c Case) pbt.Outcome {
 	if n < 0 || spare < 0 || c.K < 0 || c.LenB < 0 || c.SpareB < 0 {
 		out.Skipped = true
 		return out
+	}
+	mk := func(n, spare, base int) (back, s myInts) {
+		if c.Nil && n+spare == 0 {
+			return nil, nil
+		}
+		return mk(n, spare, base)
+	}
+	if c.Nil {
+		defer func() { out.Labels = append(out.Labels, c.Op+":nil-args") }()
 	}
 	switch c.Op {
 	case "Insert":
@@ -174,7 +211,7 @@ func Run(c Case) pbt.Outcome {
 			return pbt.Fail("Insert(len=%d cap=%d, index=%d) panicked: %v", n, n+spare, idx, p)
 		}
 		if !eq(s, want) {
-			return pbt.Fail("Insert(%v (cap %d), index=%d, value=%d) = %v, want %v", orig, n+spare, idx, v, []int(s), want)
+			return pbt.Fail("Insert(%s (cap %d), index=%d, value=%d) = %s, want %s%s", show(orig), n+spare, idx, v, show(s), show(want), where(s, want))
 		}
 		lab(spareLabel(spare), posLabel(idx, n))
 		out.NonTrivial = spare > 0 && idx > 0 && idx < n
@@ -190,7 +227,7 @@ func Run(c Case) pbt.Outcome {
 			return pbt.Fail("InsertSlice(len=%d cap=%d, index=%d, %d values) panicked: %v", n, n+spare, idx, c.K, p)
 		}
 		if !eq(s, want) {
-			return pbt.Fail("InsertSlice(%v (cap %d), index=%d, values=%v) = %v, want %v", orig, n+spare, idx, vorig, []int(s), want)
+			return pbt.Fail("InsertSlice(%s (cap %d), index=%d, values=%s) = %s, want %s%s", show(orig), n+spare, idx, show(vorig), show(s), show(want), where(s, want))
 		}
 		lab(spareLabel(spare), posLabel(idx, n))
 		switch {
@@ -200,7 +237,19 @@ func Run(c Case) pbt.Outcome {
 			lab("k<=spare(in place)")
 		default:
 			lab("k>spare(realloc)")
+			// the classes of append's growth formula (double below 256, ~1.25x steps above, exact when more than double)
+			switch cp, need := n+spare, n+c.K; {
+			case need > 2*cp:
+				lab("realloc:new-len>2*cap")
+			case cp < 256:
+				lab("realloc:cap<256,new-len<=2*cap")
+			case need <= cp+(cp+768)/4:
+				lab("realloc:cap>=256,new-len<=one-1.25x-step")
+			default:
+				lab("realloc:cap>=256,one-1.25x-step<new-len<=2*cap")
+			}
 		}
+		lab(bigLabel(n + c.K))
 		out.NonTrivial = spare > 0 && idx > 0 && idx < n && c.K >= 1
 
 	case "Remove":
@@ -217,7 +266,7 @@ func Run(c Case) pbt.Outcome {
 			return pbt.Fail("Remove(len=%d cap=%d, index=%d) panicked: %v", n, n+spare, idx, p)
 		}
 		if !eq(s, want) {
-			return pbt.Fail("Remove(%v (cap %d), index=%d) = %v, want %v", orig, n+spare, idx, []int(s), want)
+			return pbt.Fail("Remove(%s (cap %d), index=%d) = %s, want %s%s", show(orig), n+spare, idx, show(s), show(want), where(s, want))
 		}
 		lab(spareLabel(spare), posLabel(idx, n))
 		out.NonTrivial = spare > 0 && idx > 0 && idx < n-1
@@ -232,7 +281,7 @@ func Run(c Case) pbt.Outcome {
 			return pbt.Fail("RemoveSlice(len=%d cap=%d, index=%d, length=%d) panicked: %v", n, n+spare, idx, length, p)
 		}
 		if !eq(s, want) {
-			return pbt.Fail("RemoveSlice(%v (cap %d), index=%d, length=%d) = %v, want %v", orig, n+spare, idx, length, []int(s), want)
+			return pbt.Fail("RemoveSlice(%s (cap %d), index=%d, length=%d) = %s, want %s%s", show(orig), n+spare, idx, length, show(s), show(want), where(s, want))
 		}
 		lab(spareLabel(spare), posLabel(idx, n))
 		switch {
@@ -258,7 +307,7 @@ func Run(c Case) pbt.Outcome {
 		}
 		for i := range s {
 			if s[i] != v {
-				return pbt.Fail("Fill(len=%d cap=%d, value=%d): element %d is %d: %v", n, n+spare, v, i, s[i], []int(s))
+				return pbt.Fail("Fill(len=%d cap=%d, value=%d): element %d is %d: %s", n, n+spare, v, i, s[i], show(s))
 			}
 		}
 		lab(lenLabel(n))
@@ -275,7 +324,7 @@ func Run(c Case) pbt.Outcome {
 		}
 		for i := range r {
 			if r[i] != v {
-				return pbt.Fail("Repeat(%d, count=%d): element %d is %d: %v", v, c.K, i, r[i], r)
+				return pbt.Fail("Repeat(%d, count=%d): element %d is %d: %s", v, c.K, i, r[i], show(r))
 			}
 		}
 		lab(lenLabel(c.K))
@@ -292,7 +341,7 @@ func Run(c Case) pbt.Outcome {
 			return pbt.Fail("Reverse(len=%d) panicked: %v", n, p)
 		}
 		if !eq(s, want) {
-			return pbt.Fail("Reverse(%v) = %v, want %v", orig, []int(s), want)
+			return pbt.Fail("Reverse(%s) = %s, want %s%s", show(orig), show(s), show(want), where(s, want))
 		}
 		if n%2 == 0 {
 			lab("even")
@@ -311,7 +360,7 @@ func Run(c Case) pbt.Outcome {
 			return pbt.Fail("Concat(len %d cap %d, len %d cap %d) panicked: %v", n, n+spare, c.LenB, c.LenB+c.SpareB, p)
 		}
 		if !eq(r, want) {
-			return pbt.Fail("Concat(%v (cap %d), %v (cap %d)) = %v, want %v", []int(a), n+spare, []int(b), c.LenB+c.SpareB, []int(r), want)
+			return pbt.Fail("Concat(%s (cap %d), %s (cap %d)) = %s, want %s%s", show(a), n+spare, show(b), c.LenB+c.SpareB, show(r), show(want), where(r, want))
 		}
 		name := fmt.Sprintf("Concat(a: len %d cap %d, b: len %d cap %d)", n, n+spare, c.LenB, c.LenB+c.SpareB)
 		if m := checkDisjoint(name, r, backA, backB); m != "" {
@@ -343,7 +392,7 @@ func Run(c Case) pbt.Outcome {
 			return pbt.Fail("Clone(len %d cap %d) panicked: %v", n, n+spare, p)
 		}
 		if !eq(r, want) {
-			return pbt.Fail("Clone(%v) = %v", want, []int(r))
+			return pbt.Fail("Clone(%s) = %s%s", show(want), show(r), where(r, want))
 		}
 		if m := checkDisjoint(fmt.Sprintf("Clone(len %d cap %d)", n, n+spare), r, back); m != "" {
 			return pbt.Fail("%s", m)
@@ -360,7 +409,7 @@ func Run(c Case) pbt.Outcome {
 			return pbt.Fail("Grow(len %d cap %d, n=%d) panicked: %v", n, n+spare, c.K, p)
 		}
 		if !eq(r, want) {
-			return pbt.Fail("Grow(%v (cap %d, spare capacity poisoned), n=%d) = %v, want %v", orig, n+spare, c.K, []int(r), want)
+			return pbt.Fail("Grow(%s (cap %d, spare capacity poisoned), n=%d) = %s, want %s%s", show(orig), n+spare, c.K, show(r), show(want), where(r, want))
 		}
 		switch {
 		case c.K == 0:
@@ -382,6 +431,22 @@ func Run(c Case) pbt.Outcome {
 	return out
 }
 
+// bigLabel classifies the size of the result.
+func bigLabel(n int) string {
+	switch {
+	case n <= 64:
+		return "size<=64"
+	case n <= 256:
+		return "size65..256"
+	case n <= 1024:
+		return "size257..1024"
+	case n <= 4096:
+		return "size1025..4096"
+	default:
+		return "size>4096"
+	}
+}
+
 func lenLabel(n int) string {
 	switch {
 	case n == 0:
@@ -401,8 +466,117 @@ func lenLabel(n int) string {
 	}
 }
 
+// hasZeroArg reports whether the case hands a slice of length 0 and capacity 0 to the helper.
+func hasZeroArg(c Case) bool {
+	switch c.Op {
+	case "Repeat":
+		return false
+	case "InsertSlice":
+		return c.Len+c.Spare == 0 || c.K+c.SpareB == 0
+	case "Concat":
+		return c.Len+c.Spare == 0 || c.LenB+c.SpareB == 0
+	}
+	return c.Len+c.Spare == 0
+}
+
+// drawSize draws a length for the "big" mode: uniform, or next to a power of two, or next to a multiple of 64
+// (the places where growth formulas, block loops and size classes change), up to max.
+func drawSize(t *rapid.T, max int, name string) int {
+	var n int
+	switch rapid.IntRange(0, 3).Draw(t, name+"_kind") {
+	case 0:
+		n = rapid.IntRange(0, max).Draw(t, name)
+	case 1, 2:
+		e := 3
+		for 1<<(e+1) <= max {
+			e++
+		}
+		n = 1<<rapid.IntRange(3, e).Draw(t, name+"_exp") + rapid.IntRange(-2, 2).Draw(t, name+"_delta")
+	default:
+		n = 64*rapid.IntRange(1, max/64).Draw(t, name+"_blocks") + rapid.IntRange(-1, 1).Draw(t, name+"_delta")
+	}
+	return min(max, n)
+}
+
+// drawCase draws one call: the shape generator shared by C12.rand and C12.types.
+func drawCase(t *rapid.T) Case {
+	c := Case{Op: rapid.SampledFrom(opNames).Draw(t, "op")}
+	big := rapid.IntRange(0, 11).Draw(t, "big") == 0
+	wide := func(lo, hi, wideHi int, name string) int {
+		if big {
+			// the spare capacity and the batch are drawn relative to the same scale so that every relation
+			// between batch, spare capacity and capacity occurs
+			return drawSize(t, bigMax, name)
+		}
+		if rapid.IntRange(0, 7).Draw(t, name+"_wide") == 0 {
+			return rapid.IntRange(lo, wideHi).Draw(t, name)
+		}
+		return rapid.IntRange(lo, hi).Draw(t, name)
+	}
+	switch c.Op {
+	case "Fill", "Reverse":
+		c.Len = wide(0, 70, 600, "len")
+		c.Spare = wide(0, 6, 40, "spare")
+	case "Repeat":
+		c.K = wide(0, 70, 600, "count")
+	case "Concat":
+		c.Len = wide(0, 12, 70, "len")
+		c.LenB = wide(0, 12, 70, "len_b")
+		if rapid.Bool().Draw(t, "fits") {
+			c.Spare = c.LenB + rapid.IntRange(0, 3).Draw(t, "extra")
+		} else {
+			c.Spare = wide(0, 6, 40, "spare")
+		}
+		c.SpareB = rapid.IntRange(0, 6).Draw(t, "spare_b")
+	default:
+		c.Len = wide(0, 12, 70, "len")
+		c.Spare = wide(0, 6, 40, "spare")
+		if big && rapid.Bool().Draw(t, "small_spare") {
+			c.Spare = rapid.IntRange(0, 3).Draw(t, "spare_small")
+		}
+	}
+	switch c.Op {
+	case "Insert":
+		c.Index = rapid.IntRange(0, c.Len).Draw(t, "index")
+	case "InsertSlice":
+		c.Index = rapid.IntRange(0, c.Len).Draw(t, "index")
+		c.K = wide(0, 8, 40, "k")
+		c.SpareB = rapid.IntRange(0, 3).Draw(t, "spare_b")
+	case "Remove":
+		if c.Len == 0 {
+			c.Len = 1
+		}
+		c.Index = rapid.IntRange(0, c.Len-1).Draw(t, "index")
+	case "RemoveSlice":
+		c.Index = rapid.IntRange(0, c.Len).Draw(t, "index")
+		c.K = rapid.IntRange(0, c.Len-c.Index).Draw(t, "length")
+		if c.K == 0 && c.Len-c.Index >= 1 && rapid.IntRange(0, 3).Draw(t, "nonzero") > 0 {
+			c.K = rapid.IntRange(1, c.Len-c.Index).Draw(t, "length1")
+		}
+	case "Grow":
+		c.K = wide(0, 8, 40, "n")
+	}
+	if hasZeroArg(c) {
+		c.Nil = rapid.Bool().Draw(t, "nil")
+	}
+	return c
+}
+
+const bigMax = 5000
+
 // enumerate yields every case of the exhaustive grid.
-func enumerate(tier string, yield func(Case) bool) {
+func enumerate(tier string, yield0 func(Case) bool) {
+	// every case that hands a zero-length zero-capacity slice to the helper is run twice: empty non-nil and nil
+	yield := func(c Case) bool {
+		if !yield0(c) {
+			return false
+		}
+		if hasZeroArg(c) {
+			c.Nil = true
+			return yield0(c)
+		}
+		return true
+	}
 	maxLen, maxSpare, maxK, maxFill := 8, 3, 8, 70
 	if tier == "thorough" {
 		maxLen, maxSpare, maxK, maxFill = 14, 5, 10, 300
@@ -462,7 +636,8 @@ var specEnum = pbt.Register(&pbt.Spec[Case]{
 	Rule: "exhaustive grid: every (len <= 8, spare <= 3, index) triple for Insert/Remove, x every values length 0..8 for InsertSlice, " +
 		"x every (index, length) with index+length <= len for RemoveSlice, Grow n 0..8, Reverse/Clone every (len, spare), " +
 		"Concat every (len a <= 8, spare a <= 8, len b <= 8), Fill/Repeat/Reverse every length 0..70 " +
-		"(thorough: len <= 14, spare <= 5, k <= 10, Fill/Repeat <= 300); " + rule,
+		"(thorough: len <= 14, spare <= 5, k <= 10, Fill/Repeat <= 300); every case with a zero-length zero-capacity argument " +
+		"(destination, inserted values, Concat operand) is run with an empty non-nil slice and with a nil slice; " + rule,
 	Enum: func(shard, shards int, tier string, yield func(Case) bool) { enumerate(tier, yield) },
 	Run:  Run, Exhaustive: true,
 })
@@ -471,58 +646,12 @@ var specRand = pbt.Register(&pbt.Spec[Case]{
 	Property: "C12", Name: "C12.rand",
 	Rule: "rapid: op uniform over the ten helpers; len 0..12 (1 in 8: 0..70), spare 0..6 (1 in 8: 0..40), any valid index, " +
 		"InsertSlice values 0..8 (1 in 8: 0..40) with own backing array, RemoveSlice any (index, length), Fill/Repeat/Reverse length 0..70 " +
-		"(1 in 8: 0..600), Grow n 0..8 (1 in 8: 0..40); " + rule,
-	Gen: func(t *rapid.T) Case {
-		c := Case{Op: rapid.SampledFrom(opNames).Draw(t, "op")}
-		wide := func(lo, hi, wideHi int, name string) int {
-			if rapid.IntRange(0, 7).Draw(t, name+"_wide") == 0 {
-				return rapid.IntRange(lo, wideHi).Draw(t, name)
-			}
-			return rapid.IntRange(lo, hi).Draw(t, name)
-		}
-		switch c.Op {
-		case "Fill", "Reverse":
-			c.Len = wide(0, 70, 600, "len")
-			c.Spare = wide(0, 6, 40, "spare")
-		case "Repeat":
-			c.K = wide(0, 70, 600, "count")
-		case "Concat":
-			c.Len = wide(0, 12, 70, "len")
-			c.LenB = wide(0, 12, 70, "len_b")
-			if rapid.Bool().Draw(t, "fits") {
-				c.Spare = c.LenB + rapid.IntRange(0, 3).Draw(t, "extra")
-			} else {
-				c.Spare = wide(0, 6, 40, "spare")
-			}
-			c.SpareB = rapid.IntRange(0, 6).Draw(t, "spare_b")
-		default:
-			c.Len = wide(0, 12, 70, "len")
-			c.Spare = wide(0, 6, 40, "spare")
-		}
-		switch c.Op {
-		case "Insert":
-			c.Index = rapid.IntRange(0, c.Len).Draw(t, "index")
-		case "InsertSlice":
-			c.Index = rapid.IntRange(0, c.Len).Draw(t, "index")
-			c.K = wide(0, 8, 40, "k")
-			c.SpareB = rapid.IntRange(0, 3).Draw(t, "spare_b")
-		case "Remove":
-			if c.Len == 0 {
-				c.Len = 1
-			}
-			c.Index = rapid.IntRange(0, c.Len-1).Draw(t, "index")
-		case "RemoveSlice":
-			c.Index = rapid.IntRange(0, c.Len).Draw(t, "index")
-			c.K = rapid.IntRange(0, c.Len-c.Index).Draw(t, "length")
-			if c.K == 0 && c.Len-c.Index >= 1 && rapid.IntRange(0, 3).Draw(t, "nonzero") > 0 {
-				c.K = rapid.IntRange(1, c.Len-c.Index).Draw(t, "length1")
-			}
-		case "Grow":
-			c.K = wide(0, 8, 40, "n")
-		}
-		return c
-	},
-	Run: Run, Quick: 60000, Thorough: 300000,
+		"(1 in 8: 0..600), Grow n 0..8 (1 in 8: 0..40); 1 case in 12 is BIG: every length / spare capacity / batch / count is drawn " +
+		"from 0..5000 (uniform, or 2^k-2..2^k+2, or 64m-1..64m+1), spare capacity 0..3 in half of them, so that the destination " +
+		"capacity crosses the thresholds of append's growth formula (256, 1.25x steps, more than double) in every relation between " +
+		"batch, spare capacity and capacity; zero-length zero-capacity arguments are nil slices in half of the cases that have one; " + rule,
+	Gen: drawCase,
+	Run: Run, Quick: 100000, Thorough: 300000,
 })
 
 func TestC12Enum(t *testing.T) { pbt.Check(t, specEnum) }
